@@ -98,6 +98,52 @@ theorem stepOne_primary (resp : KeyResponse) (r : NR) (k : String) :
         simp [h, this]
     cases hr : n.result <;> by_cases hm : n.message.length > 0 <;> simp [hr, hm, cnt_inc, e]
 
+/-- The `Messages` entry reply `r` writes for its sender, if any: the two rejection notices, the message of a
+failed reply (also an empty one), the non-empty message of a successful reply. -/
+def msgOf (r : NR) : Option Msg :=
+  match r.payload with
+  | .badType => some .invalidType
+  | .undecodable => some .decodeFailed
+  | .decoded n => if !n.result || decide (n.message.length > 0) then some (.text n.message) else none
+
+theorem stepOne_messages (resp : KeyResponse) (r : NR) (s : String) :
+    alookup (stepOne resp r).messages s =
+      if s = r.sender then (msgOf r <|> alookup resp.messages s) else alookup resp.messages s := by
+  unfold stepOne msgOf
+  cases r.payload with
+  | badType => by_cases h : s = r.sender <;> simp [alookup_ainsert, h]
+  | undecodable => by_cases h : s = r.sender <;> simp [alookup_ainsert, h]
+  | decoded n =>
+    cases hr : n.result <;> by_cases hm : n.message.length > 0 <;> by_cases h : s = r.sender <;>
+      simp [hr, hm, alookup_ainsert, h]
+
+/-- The last message-writing reply of sender `s` in `l`. -/
+def lastMsg (l : List NR) (s : String) : Option Msg :=
+  ((l.filter (·.sender == s)).filterMap msgOf).getLast?
+
+theorem lastMsg_cons (r : NR) (l : List NR) (s : String) :
+    lastMsg (r :: l) s = (lastMsg l s <|> (if s = r.sender then msgOf r else none)) := by
+  unfold lastMsg
+  by_cases h : s = r.sender
+  · subst h
+    have hf : List.filter (fun x => x.sender == r.sender) (r :: l) = r :: List.filter (fun x => x.sender == r.sender) l := by
+      simp [List.filter_cons]
+    rw [hf]
+    cases hm : msgOf r with
+    | none => simp [List.filterMap_cons, hm]
+    | some m =>
+      rw [List.filterMap_cons, hm]
+      cases hl : (List.filterMap msgOf (List.filter (fun x => x.sender == r.sender) l)) with
+      | nil => simp
+      | cons a as =>
+        simp [List.getLast?_cons_cons]
+        cases hx : (a :: as).getLast? with
+        | none => simp at hx
+        | some x => simp
+  · have hb : (r.sender == s) = false := by
+      simp; exact fun e => h e.symm
+    simp [List.filter_cons, hb, h]
+
 /-! ### the fold -/
 
 theorem fold_facts (rs : List NR) : ∀ (resp : KeyResponse),
@@ -116,6 +162,20 @@ theorem fold_facts (rs : List NR) : ∀ (resp : KeyResponse),
     · rw [h3, stepOne_numErr, List.countP_cons]; omega
     · intro k; rw [h4, stepOne_keys]; simp; omega
     · intro k; rw [h5, stepOne_primary, List.countP_cons]; omega
+
+theorem fold_messages (rs : List NR) : ∀ (resp : KeyResponse) (s : String),
+    alookup (rs.foldl stepOne resp).messages s = (lastMsg rs s <|> alookup resp.messages s) := by
+  induction rs with
+  | nil => intro resp s; simp [lastMsg]
+  | cons r rs ih =>
+    intro resp s
+    simp only [List.foldl_cons]
+    rw [ih, stepOne_messages, lastMsg_cons]
+    by_cases h : s = r.sender
+    · simp only [h, if_true]
+      cases lastMsg rs r.sender <;> cases msgOf r <;> simp
+    · simp only [h, if_false]
+      cases lastMsg rs s <;> simp
 
 /-- The loop as a fold: it consumes replies until `NumResp` reaches `NumNodes`; if
 `NumResp` is already ≥ `NumNodes` (only `NumNodes = 0` initially) it never stops early. -/
